@@ -607,7 +607,7 @@ theorem ecdsa_recover_then_verify_ec {p : ℕ} [Fact p.Prime] {C : Curve} (K : C
   Btc.E2E.ecdsa_recover_then_verify_ec K h34 hr hs h
 
 -- a key the API accepts (`pubKeyOk` computes), on the toy curve (31 points = n; cofactor one proved there too:
--- `Btc.E2E.Toy.toy_hcof`) and on secp256k1, where the hypothesis-free theorem then applies to it
+-- `Btc.C01.Toy.toy_hcof`) and on secp256k1, where the hypothesis-free theorem then applies to it
 example : pubKeyOk secp256k1 secp256k1.G = true := by decide +kernel
 example (c r s : ℤ) : verifyFull (EC.ops secp256k1) (isXCoord secp256k1) c secp256k1.G r s = true ↔
     verify (EC.ops secp256k1) c secp256k1.G r s = true :=
